@@ -62,6 +62,18 @@ CHECKS.update({
    note="Trusted: the LD_PRELOAD injector (validated against strace at every run), the stand-in rustc (library = function of the source). RAYON_NUM_THREADS=1; simultaneous half-built components are not enumerated."),
 })
 
+CHECKS.update({
+ "C09": dict(level="exploration", design="4/C09", engine="cli_sweeps (python driver over the eqlog CLI and rustc)", technique="bounded-exhaustive enumeration of accepted corpus programs x both build modes; oracle: eqlog exits 0 without panic, rustc type-checks the module in both flavours and every component, a subset is linked against the runtime / the component libraries and run",
+   text="Every accepted program of the corpora (curated K, the repository's accepted theories, generated family G when present) is compiled by the CLI of the working tree as a single module and as module plus one component library per rule (real rustc); rustc must accept the module in both flavours and every component; quick links and runs a few, thorough all. There are no states, only programs: exploration.",
+   note="Trusted: the installed rustc. Programs outside the corpora are not covered; the identifier/arity preconditions of the property hold for the corpora by construction."),
+ "C13": dict(level="exploration", design="4/C13", engine="cli_sweeps", technique="enumeration of accepted programs x process configurations (repetition, 1/2/16 worker threads, directory layout, ASLR, environment, allocator) x both build modes; oracle: byte equality of all generated text files; injector record shows one writer task per component",
+   text="Each corpus program is compiled under 5 (quick) / 7 (thorough) configurations in both build modes; the module, every component source and every digest must be byte-identical across configurations, and the LD_PRELOAD record of the component build must show each component's files written by a single task. The interleavings of the rayon bridge are not enumerated (stated limit); configurations are.",
+   note="Trusted: the injector's record. Not explored: the schedules of the parallel bridge beyond thread-count variation."),
+ "C19": dict(level="exploration", design="4/C19", engine="cli_sweeps + models", technique="static: textual comparison of environment structs, imported/exported symbols and rule code between module build and component build for every corpus program; dynamic: the BFS-explored API histories run against a harness linked with the real component libraries and against the module harness, transcripts compared",
+   text="For every corpus program both build types are produced from the same source and compared: every environment struct declared in the module equals the declaration in its component, the link names the module imports are exactly the no_mangle symbols the components export, the component source occurs verbatim in the single-file module. For the corpus theories a second harness is linked against the component libraries compiled by the real rustc; every explored history must give identical ids, return values and iterator outputs in both.",
+   note="Trusted: rustc/linker. Histories are those of the explorer at the reported depth."),
+})
+
 PENDING = {}
 
 def main():
